@@ -115,7 +115,8 @@ def model_cfg(c, c02reply):
     else:
         items = _kinds_from_c02(c02reply)
         raise_on_bad = c['cb'] is None
-    table = [[int(k), 'raise' if v == 'raise-base' else v] for k, v in ((c['cb'] or {}).get('table') or {}).items()]
+    table = [[int(k), {'raise-base': 'raise', 'cancel-first': 'cancel'}.get(v, v)]
+             for k, v in ((c['cb'] or {}).get('table') or {}).items()]
     return {'N': c['threads'], 'cap': 3 * c['threads'], 'items': items, 'readFault': c.get('read_fault_item'),
             'refuse': list(c.get('refuse') or []), 'raiseOnBad': raise_on_bad, 'cbByDone': table}
 
